@@ -1,6 +1,7 @@
 package main
 
 import (
+	"crypto/sha1"
 	"encoding/base64"
 	"encoding/hex"
 	"encoding/json"
@@ -20,6 +21,7 @@ import (
 	"github.com/fabiolb/fabio/auth"
 	"github.com/fabiolb/fabio/config"
 	"github.com/fabiolb/fabio/route"
+	htpasswd "github.com/tg123/go-htpasswd"
 	"verif/harness/hx"
 )
 
@@ -364,6 +366,7 @@ type authIn struct {
 	Secrets    [][]string `json:"secrets"`
 	Cred       credIn     `json:"cred"`
 	Req        reqExtra   `json:"req"`
+	Htpasswd   string     `json:"htpasswd"` // non-empty: the text of the htpasswd file (instead of one line user:password per secret)
 }
 
 // reqExtra is the rest of the request: the gate has to judge a request by its peer, its X-Forwarded-For lines and
@@ -538,14 +541,22 @@ func loadSchemes(names []string, secrets [][]string) (map[string]auth.AuthScheme
 		if len(s) != 2 || s[0] == "" || strings.ContainsAny(s[0], ":\n\r") || strings.ContainsAny(s[1], "\n\r") || s[1] == "" {
 			return nil, fmt.Errorf("unusable secret %q", s)
 		}
+		if strings.TrimSpace(s[0]+":"+s[1]) != s[0]+":"+s[1] || htHashed(s[1]) {
+			return nil, fmt.Errorf("secret %q is not stored as written", s)
+		}
 		sb.WriteString(s[0] + ":" + s[1] + "\n")
 	}
+	return loadSchemesText(names, sb.String(), true)
+}
+
+// loadSchemesText: the same over the given text of the htpasswd file.
+func loadSchemesText(names []string, text string, cache bool) (map[string]auth.AuthScheme, error) {
 	ns := append([]string(nil), names...)
 	sort.Strings(ns)
-	key := strings.Join(ns, "\x00") + "\x01" + sb.String()
+	key := strings.Join(ns, "\x00") + "\x01" + text
 	authMu.Lock()
 	defer authMu.Unlock()
-	if m, ok := authCache[key]; ok {
+	if m, ok := authCache[key]; ok && cache {
 		return m, nil
 	}
 	if authDir == "" {
@@ -556,7 +567,10 @@ func loadSchemes(names []string, secrets [][]string) (map[string]auth.AuthScheme
 		authDir = d
 	}
 	file := filepath.Join(authDir, fmt.Sprintf("htpasswd-%d", len(authCache)))
-	if err := os.WriteFile(file, []byte(sb.String()), 0o600); err != nil {
+	if !cache {
+		file = filepath.Join(authDir, "htpasswd-text") // read once by htpasswd.New, then overwritten by the next case
+	}
+	if err := os.WriteFile(file, []byte(text), 0o600); err != nil {
 		return nil, err
 	}
 	cfg := map[string]config.AuthScheme{}
@@ -567,8 +581,127 @@ func loadSchemes(names []string, secrets [][]string) (map[string]auth.AuthScheme
 	if err != nil {
 		return nil, err
 	}
-	authCache[key] = m
+	if cache {
+		authCache[key] = m
+	}
 	return m, nil
+}
+
+var htPrefixes = []string{"$apr1$", "$1$", "{SHA}", "$2y$", "$2a$", "$2b$", "$2x$", "{SSHA}", "$5$", "$6$"}
+
+func htHashed(enc string) bool {
+	for _, p := range htPrefixes {
+		if strings.HasPrefix(enc, p) {
+			return true
+		}
+	}
+	return false
+}
+
+// hashedOracle: what the library's hash parsers (all of DefaultSystems but the plain-text one) make of the hashed
+// encodings of the file, and whether the resulting matcher accepts pw. The hash functions are not modelled; this is
+// the parameter H of the model.
+func hashedOracle(text, pw string) []map[string]interface{} {
+	out := []map[string]interface{}{}
+	seen := map[string]bool{}
+	for _, line := range strings.Split(text, "\n") {
+		line = strings.TrimSpace(line)
+		i := strings.IndexByte(line, ':')
+		if i < 0 {
+			continue
+		}
+		enc := line[i+1:]
+		if !htHashed(enc) || seen[enc] {
+			continue
+		}
+		seen[enc] = true
+		e := map[string]interface{}{"enc": enc, "ok": false, "match": false}
+		for _, p := range htpasswd.DefaultSystems[:len(htpasswd.DefaultSystems)-1] {
+			m, err := p(enc)
+			if err != nil {
+				break
+			}
+			if m != nil {
+				e["ok"] = true
+				func() {
+					// a matcher the library built from a malformed encoding may panic (crypt-SHA with a rounds
+					// component that is no number): it then matches nothing
+					defer func() { recover() }()
+					e["match"] = m.MatchesPassword(pw)
+				}()
+				break
+			}
+		}
+		out = append(out, e)
+	}
+	return out
+}
+
+func shaEnc(pw string) string {
+	h := sha1.Sum([]byte(pw))
+	return "{SHA}" + base64.StdEncoding.EncodeToString(h[:])
+}
+
+var (
+	htUsers  = []string{"alice", "bob", "carol", "a", "user name", "", "#alice", "Alice"}
+	htPws    = []string{"secret", "hunter2", "pa55", "x", "a:b", "{PLAIN}secret", "se cret", ":"}
+	htJunk   = []string{"", "  ", "nocolon", "# htpasswd of the intranet", "\t", "alice", ":", "alice:", " : "}
+	htBroken = []string{"{SHA}!!", "{SHA}", "{SHA}c2hvcnQ=", "$2y$", "$2y$05$tooshort", "$apr1$", "$apr1$salt", "$1$", "$5$", "$6$rounds=x$", "{SSHA}", "{SSHA}!!"}
+)
+
+// genHtpasswd writes an htpasswd text the way such files look in the wild: several lines for one user (the last
+// one counts), blanks around lines, CR LF, comment and junk lines, {PLAIN} and {SHA} entries, hashed entries the
+// library rejects. It returns the text and a (user, password) pair worth trying.
+func genHtpasswd(r *hx.Rand) (string, string, string) {
+	n := 1 + r.Intn(6)
+	var lines []string
+	type up struct{ u, p string }
+	var cands []up
+	for i := 0; i < n; i++ {
+		u, p := r.Pick(htUsers), r.Pick(htPws)
+		if i > 0 && r.Chance(1, 3) {
+			u = cands[r.Intn(len(cands))].u // another line for a user the file has already
+		}
+		enc := p
+		switch r.Intn(10) {
+		case 0:
+			enc = "{PLAIN}" + p
+		case 1, 2:
+			enc = shaEnc(p)
+		case 3:
+			enc = r.Pick(htBroken)
+		}
+		line := u + ":" + enc
+		switch r.Intn(8) {
+		case 0:
+			line = "  " + line
+		case 1:
+			line += " "
+		case 2:
+			line += "\r"
+		case 3:
+			line = "\t" + line + " \t"
+		}
+		lines = append(lines, line)
+		cands = append(cands, up{u, p})
+		if r.Chance(1, 4) {
+			lines = append(lines, r.Pick(htJunk))
+		}
+	}
+	text := strings.Join(lines, "\n")
+	if r.Chance(3, 4) {
+		text += "\n"
+	}
+	c := cands[r.Intn(len(cands))]
+	switch r.Intn(6) {
+	case 0:
+		c.p = r.Pick(htPws)
+	case 1:
+		c.p = "{PLAIN}" + c.p
+	case 2:
+		c.p = strings.TrimPrefix(c.p, "{PLAIN}")
+	}
+	return text, c.u, c.p
 }
 
 func (c credIn) apply(h http.Header) {
@@ -611,6 +744,17 @@ func genAuth(r *hx.Rand) authIn {
 	default:
 		in.Scheme = r.Pick(schemeNames)
 	}
+	if r.Chance(1, 4) {
+		// the htpasswd file as a text
+		text, u, p := genHtpasswd(r)
+		in.Htpasswd, in.Secrets = text, [][]string{}
+		if !strings.Contains(u, ":") && r.Chance(5, 6) {
+			in.Cred = credIn{Mode: "basic", User: u, Pass: p}
+		}
+		if r.Chance(2, 3) {
+			in.Registered, in.Scheme = []string{"basic"}, "basic"
+		}
+	}
 	in.Req = genReqExtra(r, in.Cred)
 	return in
 }
@@ -623,7 +767,18 @@ func runAuth(raw json.RawMessage) (interface{}, error) {
 	if in.Cred.Mode == "basic" && strings.Contains(in.Cred.User, ":") {
 		return nil, fmt.Errorf("user name with a colon cannot be sent with basic auth")
 	}
-	schemes, err := loadSchemes(in.Registered, in.Secrets)
+	var schemes map[string]auth.AuthScheme
+	var err error
+	if in.Htpasswd != "" {
+		for _, c := range in.Htpasswd {
+			if c > 0x7e || c < 0x20 && c != '\n' && c != '\r' && c != '\t' {
+				return nil, fmt.Errorf("htpasswd text outside printable ASCII")
+			}
+		}
+		schemes, err = loadSchemesText(in.Registered, in.Htpasswd, false)
+	} else {
+		schemes, err = loadSchemes(in.Registered, in.Secrets)
+	}
 	if err != nil {
 		return nil, err
 	}
@@ -642,9 +797,11 @@ func runAuth(raw json.RawMessage) (interface{}, error) {
 		req.Header.Add(l[0], l[1])
 	}
 	ba := libBasicAuth(lines)
+	_, pw, _ := req.BasicAuth()
 	rec := httptest.NewRecorder()
 	ok := t.Authorized(req, rec, schemes)
-	return map[string]interface{}{"ok": ok, "ba": ba, "challenge": rec.Header().Get("WWW-Authenticate") != ""}, nil
+	return map[string]interface{}{"ok": ok, "ba": ba, "hashed": hashedOracle(in.Htpasswd, pw),
+		"challenge": rec.Header().Get("WWW-Authenticate") != ""}, nil
 }
 
 // ---------------------------------------------------------------------------------------------------------
